@@ -643,10 +643,44 @@ func c17(c *Ctx) {
 			eachInstr(f, func(i ssa.Instruction) {
 				if ta, ok := i.(*ssa.TypeAssert); ok && strings.Contains(ta.AssertedType.String(), "arm64asm") {
 					r.Check(ta.CommaOk, "C17.R5", "PC-relative argument read through a checked assertion in "+shortName(f), k2.Pos(posOf(i)), "v, ok := arg.(PCRel)", "unchecked assertion on a decoded argument")
+					if ta.CommaOk {
+						// the asserted value is used only where the assertion is known to have held
+						var val, okv ssa.Value
+						for _, ref := range *ta.Referrers() {
+							if ex, isEx := ref.(*ssa.Extract); isEx {
+								if ex.Index == 0 {
+									val = ex
+								} else {
+									okv = ex
+								}
+							}
+						}
+						usedOK := true
+						if val != nil {
+							for _, ref := range *val.Referrers() {
+								if _, dbg := ref.(*ssa.DebugRef); dbg {
+									continue
+								}
+								held := false
+								for _, g := range guardsAt(ref.Block()) {
+									if g.Cond == okv && g.Pol {
+										held = true
+									}
+								}
+								if !held {
+									usedOK = false
+								}
+							}
+						}
+						r.Check(usedOK, "C17.R5", "PC-relative argument used only when the assertion held in "+shortName(f), k2.Pos(posOf(i)), "every use is on the ok side", "the displacement of a decoded branch is used although the argument was not a PC-relative one (the zero value stands in): the wrapper's callee is computed as the call instruction itself")
+					}
 				}
 			})
 		}
 		r.Stat("arm64_decode_consumers", n)
+		if nt := checkCallTargetArithmetic(k2, r, "C17.R5"); nt == 0 {
+			r.Und("C17.R5", "branch target arithmetic", "", "no arm64 scanner computes an address from a decoded displacement")
+		}
 		r.SetConfig("linux/amd64")
 	} else {
 		r.Und("C17.R5", "arm64 configuration", "", err.Error())
